@@ -219,6 +219,8 @@ def r3(ctx, F, rule, sfx):
 
 
 def r4(ctx, F, rule, sfx):
+    from . import c14
+    c14.r3(ctx, F, rule, sfx)          # every tetrahedron of the decomposition is fed to the cell integral (no plane skipped)
     c01.r6(ctx, F, rule, sfx)
 
 
